@@ -157,6 +157,7 @@ type caseIn struct {
 	Payload string                `json:"payload"`
 	Cmd     *packet.CommandPacket `json:"cmd,omitempty"`
 	NoDispatch bool `json:"no_dispatch"`
+	Sweep      bool `json:"sweep,omitempty"` // retain: packet i carries command type i%256 on packet type 0x10/0x11 alternating every 256
 	Reps       int  `json:"reps"` // retain: how many times the packet is dispatched on ONE connection
 }
 type obs struct {
@@ -240,6 +241,12 @@ func runRetain(c caseIn, out *caseOut) {
 			if c.Cmd != nil {
 				cp := *c.Cmd
 				cp.CommandId = fmt.Sprintf("%s-%d", cp.CommandId, i)
+				// every packet names fresh identifiers of its own (request ids, tunnel ids ...): state keyed by a peer-chosen id must not pile up
+				cp.CommandBody = strings.ReplaceAll(cp.CommandBody, "@SEQ@", fmt.Sprintf("%d-%d", connSeq, i))
+				if c.Sweep { // cycle through every command type and both command-carrying packet types
+					cp.CommandType = packet.CommandType(i % 256)
+					tp.PacketType = packet.Type(0x10 + (i/256)%2)
+				}
 				tp.CommandPacket = &cp
 			}
 			var pan string
@@ -264,7 +271,11 @@ func runRetain(c caseIn, out *caseOut) {
 		runtime.ReadMemStats(&m)
 		return m.HeapAlloc
 	}
-	if p := send(200); p != "" { // warm-up: lazily created structures
+	warm := 200
+	if c.Sweep {
+		warm = 512
+	}
+	if p := send(warm); p != "" { // warm-up: lazily created structures
 		out.Panicked = p
 		return
 	}
@@ -279,6 +290,12 @@ func runRetain(c caseIn, out *caseOut) {
 	grow := float64(0)
 	if h1 > h0 {
 		grow = float64(h1-h0) / float64(c.Reps)
+	}
+	if c.Sweep { // judged on the total: one leaking (packet type, command type) pair in 512 must show
+		grow = 0
+		if h1 > h0+(768<<10) {
+			grow = float64(h1-h0) / (float64(c.Reps) / 512) // per visit of the (single) leaking pair
+		}
 	}
 	out.RetainedPerOp = grow
 	out.Dispatched = c.Reps
